@@ -1,8 +1,9 @@
 import Driver.Client
 import Driver.Pure
+import Ftp.Spec.RefAutomaton
 /-
-  Verdict for client-level scenarios: correspondence (projection per property) and the property's monitor,
-  evaluated on the implementation's trace.
+  Verdict for client-level scenarios: correspondence (projection per property) and the property's monitor -
+  the `Holds` predicate of the property, evaluated on the implementation's trace.
 -/
 namespace Driver
 open Ftp Ftp.Client
@@ -41,58 +42,389 @@ def firstDiff : List String → List String → Nat → Option (Nat × String ×
 
 def short (s : String) : String := if s.length > 160 then (s.take 160).toString ++ "…" else s
 
-/-- replies decoded from raw bytes (a well-formed reply each) -/
+/-- a reply decoded from its raw bytes (reference decoder) -/
 def decodeRaw (raw : Bytes) : Option (Nat × Bytes) :=
   match Spec.decodeStream raw with
   | some [r] => some r
   | _ => none
 
+/-- the `code:hex` items of a return token -/
 def retReplies (ret : String) : Option (List String) :=
-  -- the `code:hex` items of a return token
   match ret.splitOn ":" with
   | ["ret", "reply", c, h] => some [s!"{c}:{h}"]
   | "ret" :: "replies" :: _ :: _ :: rest => some (splitComma (":".intercalate rest))
-  | "ret" :: "list" :: _ :: _ :: rest =>
-    -- rest = items..., hextext, hexlines  (items contain ':' but no ',' at top level except separators)
-    let s := ":".intercalate (rest.dropLast.dropLast)
-    some (splitComma s)
+  | "ret" :: "list" :: _ :: _ :: rest => some (splitComma (":".intercalate (rest.dropLast.dropLast)))
   | ["ret", "size", c, h, _] => some [s!"{c}:{h}"]
   | ["ret", "mdtm", c, h, _] => some [s!"{c}:{h}"]
   | ["ret", "opt", "none"] => some []
   | ["ret", "opt", c, h] => some [s!"{c}:{h}"]
   | _ => none
 
+def retPositive (ret : String) : Option Bool :=
+  match ret.splitOn ":" with
+  | "ret" :: "replies" :: p :: _ => some (p = "1")
+  | "ret" :: "list" :: p :: _ => some (p = "1")
+  | _ => none
+
 def findTok (toks : List String) (pre : String) : Option String := toks.find? (·.startsWith pre)
 
-structure MonCtx where
-  prop : String
-  views : List OpView
+def idxOfTok (toks : List String) (p : String → Bool) : Option Nat :=
+  (toks.zipIdx.find? fun (t, _) => p t).map (·.2)
 
-/-- the generic monitors; each returns a failure class -/
-def monitorOp (prop : String) (v : OpView) : Option String :=
+def lastIdxOfTok (toks : List String) (p : String → Bool) : Option Nat :=
+  ((toks.zipIdx.filter fun (t, _) => p t).getLast?).map (·.2)
+
+def hasCrLfB (b : Bytes) : Bool := b.any fun c => c = 13 || c = 10
+
+/-- state of the client as the implementation reported it after the previous operation -/
+structure Seen where
+  connected : Bool := false
+  ascii : Bool := false
+  active : Bool := false
+  rfc : Bool := true
+  v6 : Bool := false
+  observers : List Nat := []
+  inStep : Bool := true        -- no unread control bytes were left by the previous operation
+
+def seenAfter (s : Seen) (v : OpView) : Seen :=
+  let st := ((findTok v.impl "st:").getD "").splitOn ":"
+  let s := { s with inStep := (st.getD 6 "x" = "x" || st.getD 6 "x" = "x0a"), connected := st.getD 1 "0" = "1", ascii := st.getD 2 "I" = "A", active := st.getD 3 "p" = "a", rfc := st.getD 4 "1" = "1" }
+  match v.op.name, (v.op.args.getD 0 "").toNat? with
+  | "addobs", some i => { s with observers := s.observers ++ [i] }
+  | "rmobs", some i => { s with observers := s.observers.filter (· != i) }
+  | _, _ => s
+
+/-- text arguments of an operation (caller-supplied strings that go into command lines) -/
+def textArgs (op : SOp) : List Bytes :=
+  let h (i : Nat) := (bytesOfHex (op.args.getD i "")).toList
+  match op.name with
+  | "connect" => h 2 ++ h 3
+  | "login" | "rename" => h 0 ++ h 1
+  | "cwd" | "dele" | "mkd" | "rmd" | "size" | "mdtm" | "stat" | "help" | "site" | "get" => h 0
+  | "list" => if op.args.getD 0 "-" = "-" then [] else h 0
+  | "put" => h 1
+  | _ => []
+
+def writesOf (toks : List String) : List Bytes :=
+  toks.filterMap fun t => if t.startsWith "w:" then bytesOfHex (t.drop 2).toString else none
+
+def stripCrLf (b : Bytes) : Bytes := if b.drop (b.length - 2) = [13, 10] then b.take (b.length - 2) else b
+
+def pollsOf (spec : String) : Option (List Bool) :=
+  if spec = "-" then none else some ((spec.drop 1).toString.toList.map fun c => c == '1')
+
+def cancelledOp (op : SOp) : Bool :=
+  let spec := if op.name = "get" then op.args.getD 2 "-" else if op.name = "put" then op.args.getD 5 "-" else "-"
+  match pollsOf spec with
+  | some l => l.contains true
+  | none => false
+
+def payloadOfAct (op : SOp) : Option Bytes :=
+  op.groups.findSome? fun g => match g.act with | some (.send p) => some p | _ => none
+
+def isTransfer (op : SOp) : Bool := op.name = "get" || op.name = "put" || op.name = "list"
+
+/-- codes of the replies the server generated in this operation -/
+def generatedOf (v : OpView) : List (Nat × Bytes) := ((oraclesOf v.summary).played.flatten.filterMap decodeRaw)
+
+def refCall (op : SOp) : Option Spec.Call :=
+  let h (i : Nat) := bytesOfHex (op.args.getD i "")
+  match op.name with
+  | "cwd" => (h 0).map fun a => .simple "CWD" (some a)
+  | "cdup" => some (.simple "CDUP" none)
+  | "pwd" => some (.simple "PWD" none)
+  | "dele" => (h 0).map fun a => .simple "DELE" (some a)
+  | "mkd" => (h 0).map fun a => .simple "MKD" (some a)
+  | "rmd" => (h 0).map fun a => .simple "RMD" (some a)
+  | "size" => (h 0).map fun a => .simple "SIZE" (some a)
+  | "mdtm" => (h 0).map fun a => .simple "MDTM" (some a)
+  | "stat" => some (.simple "STAT" (if op.args.isEmpty then none else h 0))
+  | "syst" => some (.simple "SYST" none)
+  | "help" => some (.simple "HELP" (if op.args.isEmpty then none else h 0))
+  | "sitehelp" => some (.simple "SITE" (some (str "HELP")))
+  | "site" => (h 0).map fun a => .simple "SITE" (some a)
+  | "noop" => some (.simple "NOOP" none)
+  | "logout" => some (.simple "REIN" none)
+  | "type" => some (.setType (op.args.getD 0 "" = "A"))
+  | "rename" => do let a ← h 0; let b ← h 1; pure (.rename a b)
+  | "login" => do let a ← h 0; let b ← h 1; pure (.login a b)
+  | "connect" => if op.args.length ≥ 4 then (do let a ← h 2; let b ← h 3; pure (.connect (some (a, b)))) else some (.connect none)
+  | "get" => (h 0).map fun a => .transfer "RETR" (some a) (cancelledOp op)
+  | "put" => (h 1).map fun a => .transfer (op.args.getD 0 "STOR") (some a) (cancelledOp op)
+  | "list" => some (.transfer (if op.args.getD 1 "" = "1" then "NLST" else "LIST") (if op.args.getD 0 "-" = "-" then none else h 0) false)
+  | "disc" => some (.disconnect (op.args.getD 0 "" = "1"))
+  | _ => none
+
+/-- the callback events must be: poll false, begin, (notify n, poll)*, end, [final poll]  - or a single poll true -/
+def cbGrammar (cb : List String) (moved : List Nat) : Option String :=
+  match cb with
+  | [] => none
+  | ["cb:p:1", "cb:p:1"] => if moved.isEmpty then none else some "bytes-moved-after-cancel-before-start"
+  | "cb:p:0" :: "cb:b" :: rest =>
+    let rec body : List String → List Nat → Bool → Option String
+      | "cb:e" :: tail, ns, cancelled =>
+        if ns != moved then some "notify-arguments-are-not-the-blocks-moved"
+        else match tail with
+          | ["cb:p:1"] => none
+          | ["cb:p:0"] => if cancelled then some "callback-sequence" else none
+          | _ => some "callback-sequence"
+      | n :: p :: tail, ns, cancelled =>
+        if cancelled then some "block-moved-after-cancel"
+        else if n.startsWith "cb:n:" && (p = "cb:p:0" || p = "cb:p:1") then
+          body tail (ns ++ [((n.drop 5).toString.toNat?).getD 0]) (p = "cb:p:1")
+        else some "callback-sequence"
+      | _, _, _ => some "callback-sequence"
+    body rest [] false
+  | _ => some "callback-sequence"
+
+/-- the property's predicate on one operation of the implementation's trace; `none` = holds -/
+def monitorOp (prop : String) (seen : Seen) (v : OpView) (next : Option OpView) : Option String :=
   let impl := v.impl
+  let op := v.op
   let ret := (impl.find? fun t => t.startsWith "ret:" || t.startsWith "thr:" || t = "LIVELOCK" || t.startsWith "escaped").getD ""
   let st := ((findTok impl "st:").getD "").splitOn ":"
   let fds := (st.getD 5 "0").toNat?.getD 0
   let pend := st.getD 6 "x"
-  let played : List (List Bytes) := (oraclesOf v.summary).played
-  let generated : List String := (played.flatten.filterMap decodeRaw).map fun (c, t) => s!"{c}:{hexOfBytes t}"
-  -- C08-style outcome check applies everywhere: only a return or an ftp_exception
+  let gen := generatedOf v
+  let generated : List String := gen.map fun (c, t) => s!"{c}:{hexOfBytes t}"
+  let writes := writesOf impl
+  let returned := ret.startsWith "ret:"
+  let noCtl := op.name ∈ ["setmode", "setrfc", "addobs", "rmobs", "isconn", "faults"]
+  -- only a return or an ftp_exception, whatever happens (C08's outcome clause, checked everywhere)
   if ret = "LIVELOCK" then some "spins-after-end-of-stream"
   else if ret.startsWith "thr:other" || ret.startsWith "escaped" then some "other-exception-escaped"
   else match prop with
   | "C02" =>
-    if ret.startsWith "thr:" then none
+    if !returned || noCtl then none
     else match retReplies ret with
       | none => none
       | some rs =>
-        if v.op.name ∈ ["setmode", "setrfc", "addobs", "rmobs", "isconn", "faults"] then none
-        else if v.op.name = "disc" && v.op.args.getD 0 "" != "1" then none
-        else if rs != generated then some "returned-replies-are-not-the-replies-to-this-call"
-        else if pend != "x" && pend != "x0a" then some "reply-left-unread"
+        if op.name = "disc" && op.args.getD 0 "" != "1" then none
+        else
+          let aborSent := writes.contains (str "ABOR\r\n")
+          let mainHasCompletion := (oraclesOf v.summary).played.any fun g => g.length ≥ 2 && (g.headD [] |>.headD 0) = 49
+          if rs != generated then
+            some (if op.name = "logout" && gen.length = 2 then "rein-answered-120-220-returns-one-reply"
+                  else if aborSent && mainHasCompletion then "abor-after-transfer-completed-leaves-reply"
+                  else "returned-replies-are-not-the-replies-to-this-call")
+          else if pend != "x" && pend != "x0a" then
+            some (if aborSent && mainHasCompletion then "abor-after-transfer-completed-leaves-reply" else "reply-left-unread")
+          else none
+  | "C03" | "C05" =>
+    if !returned || cancelledOp op then none
+    else if op.name = "get" then
+      match payloadOfAct op, findTok impl "sink:" with
+      | some p, some sk =>
+        if (op.args.getD 1 "ok") != "ok" then none
+        else if (op.groups.any fun g => g.raws.length ≥ 1) && (retPositive ret = some true) then
+          let f := sk.splitOn ":"
+          let want := if seen.ascii then Spec.dlSpec p else p
+          if f.getD 1 "" != toString want.length || f.getD 2 "" != toString (fnv64 want).toNat then
+            some (if seen.ascii then "ascii-download-bytes-differ" else "download-bytes-differ")
+          else if f.getD 4 "" != "1" then some "flush-count"
+          else if (impl.filter (·.startsWith "sk:")).getLast? != some "sk:f" then some "flush-not-after-last-byte"
+          else none
         else none
+      | _, _ => none
+    else if op.name = "list" then
+      match payloadOfAct op with
+      | some p =>
+        if retPositive ret != some true then none
+        else
+          let want := if seen.ascii then Spec.dlSpec p else p
+          let f := ret.splitOn ":"
+          let text := f.getD (f.length - 2) ""
+          if text != hexOfBytes want then some "listing-text-differs"
+          else if (impl.filter fun t => tokClass t = "o" && (t.splitOn ":").getD 1 "" = "l").any (fun t => (t.splitOn ":").getD 2 "" != hexOfBytes want) then some "observer-listing-text-differs"
+          else none
+      | none => none
+    else none
+  | "C04" =>
+    if !returned || cancelledOp op || op.name != "put" then none
+    else if retPositive ret != some true then none
+    else
+      match parsePayload (op.args.getD 2 ""), findTok v.summary "peer:" with
+      | some data, some pk =>
+        let f := pk.splitOn ":"
+        let want := if seen.ascii then Spec.ulSpec data else data
+        if f.getD 3 "" != toString want.length || f.getD 4 "" != toString (fnv64 want).toNat then
+          some (if seen.ascii then "ascii-upload-bytes-differ" else "upload-bytes-differ")
+        else if f.getD 6 "" != "1" then some "peer-saw-no-end-of-file"
+        else
+          -- the data connection is closed before the completion reply is awaited
+          match lastIdxOfTok impl (·.startsWith "dx:"), lastIdxOfTok impl (· = "rl") with
+          | some ix, some ir => if ix < ir then none else some "completion-awaited-before-data-close"
+          | _, _ => some "completion-awaited-before-data-close"
+      | _, _ => none
+  | "C06" =>
+    if !isTransfer op then none
+    else
+      let setupReply := gen.head?
+      let dcs := impl.filter (·.startsWith "dc:")
+      let nsock := (impl.filter (·.startsWith "ds:")).length
+      if !seen.active then
+        match setupReply with
+        | none => none
+        | some (c, t) =>
+          if c ≥ 400 then (if dcs.isEmpty then none else some "connected-after-refused-setup")
+          else
+            let addr := if seen.v6 then ";;1" else "127.0.0.1"
+            let want : Option String :=
+              if seen.rfc then (Spec.epsvOf t).map fun p => s!"{addr}#{p}"
+              else match Spec.pasvOf t with
+                | some ([a, b, c, d], p) => some s!"{a}.{b}.{c}.{d}#{p}"
+                | _ => none
+            match want with
+            | none => if dcs.isEmpty && ret = "thr:ftp" then none else some "malformed-passive-reply-not-refused"
+            | some ep =>
+              match dcs with
+              | [dc] => if (dc.splitOn ":").getD 2 "" = ep && nsock = 1 then none else some "connect-target-is-not-the-negotiated-endpoint"
+              | _ => some "not-exactly-one-data-connection"
+      else
+        -- active: the command advertises the endpoint the client is listening on
+        match findTok impl "db:", writes.head? with
+        | some db, some cmd =>
+          let got := (db.splitOn ":").getD 3 ""
+          let line := stripCrLf cmd
+          let adv : Option String :=
+            if line.take 5 = str "EPRT " then
+              match Spec.decodeEprtArg (line.drop 5) with
+              | some (f, a, p) => if (f = 2) = seen.v6 then some s!"{String.ofList (a.map fun b => if b = 58 then ';' else Char.ofNat b)}#{p}" else none
+              | none => none
+            else if line.take 5 = str "PORT " then
+              match Spec.decodePortArg (line.drop 5) with
+              | some ([a, b, c, d], p) => some s!"{a}.{b}.{c}.{d}#{p}"
+              | _ => none
+            else none
+          if adv != some got then some "advertised-endpoint-is-not-the-listening-socket"
+          else if (impl.filter (·.startsWith "dl:")).length != 1 then some "not-listening-before-advertising"
+          else if (idxOfTok impl (·.startsWith "dl:")).getD 0 > (idxOfTok impl (·.startsWith "w:")).getD 0 then some "not-listening-before-advertising"
+          else if (impl.filter (·.startsWith "da:")).length > 1 then some "not-exactly-one-data-connection"
+          else none
+        | _, _ => if ret = "thr:ftp" then none else some "active-setup-without-listening-socket"
+  | "C07" =>
+    if !isTransfer op then none
+    else
+      let refused := (gen.take 2).any fun (c, _) => c ≥ 400 && c != 421
+      if !refused then none
+      else if impl.any (fun t => t.startsWith "sk:" || t.startsWith "sr:" || t.startsWith "dr:" || t.startsWith "dw:" || t.startsWith "cb:b") then
+        some "refused-transfer-moved-data"
+      else if !returned then some "refused-transfer-threw"
+      else if retPositive ret != some false then some "refused-transfer-reported-positive"
+      else if retReplies ret != some generated then some "refused-transfer-replies-differ"
+      else if fds != 0 then some "refused-transfer-left-descriptor"
+      else if pend != "x" && pend != "x0a" then some "refused-transfer-left-reply-unread"
+      else match next with
+        | some nv =>
+          let nret := (nv.impl.find? fun t => t.startsWith "ret:" || t.startsWith "thr:").getD ""
+          let ngen := (generatedOf nv).map fun (c, t) => s!"{c}:{hexOfBytes t}"
+          if nret.startsWith "ret:" && !(nv.op.name ∈ ["setmode", "setrfc", "addobs", "rmobs", "isconn", "faults", "disc"]) && retReplies nret != some ngen
+          then some "session-out-of-step-after-refusal" else none
+        | none => none
+  | "C09" =>
+    if (textArgs op).any hasCrLfB then
+      (if !writes.isEmpty then some "line-break-in-argument-was-transmitted"
+       else if ret != "thr:ftp" then some "line-break-in-argument-not-rejected" else none)
+    else if writes.any (fun w => w.drop (w.length - 2) != [13, 10] || hasCrLfB (w.take (w.length - 2))) then some "command-is-not-one-line"
+    else none
+  | "C10" =>
+    if noCtl then none
+    else match refCall op with
+      | none => none
+      | some call =>
+        let s : Spec.Settings := { passive := !seen.active, rfc2428 := seen.rfc, asciiType := seen.ascii, v6 := seen.v6 }
+        let activeLine := (writes.head?.map stripCrLf).getD []
+        let want := Spec.expectedLines s call (gen.map (·.1)) activeLine
+        let got := writes.map stripCrLf
+        -- on an exception the call may stop early: what was sent must be a prefix of the reference sequence
+        if returned && got != want then some "commands-differ-from-reference"
+        else if !returned && got != want.take got.length then some "commands-differ-from-reference"
+        else if returned && retReplies ret != some generated && !(op.name = "disc" && op.args.getD 0 "" != "1") then some "not-every-reply-returned"
+        else
+          let typeNow := st.getD 2 "I" = "A"
+          if typeNow != seen.ascii then
+            (if op.name = "type" && (gen.head?.map fun (c, _) => c < 400) = some true && typeNow = (op.args.getD 0 "" = "A") then none
+             else some "transfer-type-changed-without-positive-TYPE")
+          else if op.name = "type" && (gen.head?.map fun (c, _) => c < 400) = some true && typeNow != (op.args.getD 0 "" = "A") then some "transfer-type-not-updated"
+          else none
+  | "C12" =>
+    if op.name != "get" && op.name != "put" then none
+    else
+      let spec := if op.name = "get" then op.args.getD 2 "-" else op.args.getD 5 "-"
+      if spec = "-" then none
+      else
+        let cb := impl.filter (·.startsWith "cb:")
+        let moved := impl.filterMap fun t =>
+          if op.name = "get" && t.startsWith "dr:" then (match ((t.splitOn ":").getD 2 "").toNat? with | some 0 => none | x => x)
+          else if op.name = "put" && t.startsWith "dw:" then ((t.splitOn ":").getD 2 "").toNat?
+          else none
+        if cb.isEmpty then none
+        else match cbGrammar cb moved with
+          | some c => some c
+          | none =>
+            if moved.any (· > 8192) then some "block-larger-than-8192"
+            else if cb.getLast? = some "cb:p:1" && returned then
+              -- cancelled: ABOR sent, data connection closed, ABOR's replies part of the result
+              (if !writes.contains (str "ABOR\r\n") then some "cancelled-without-ABOR"
+               else if fds != 0 then some "cancelled-transfer-left-data-connection"
+               else if (impl.any (·.startsWith "dsh:")) then some "cancelled-transfer-closed-gracefully"
+               else if retReplies ret != some generated then some "abor-replies-not-in-result" else none)
+            else if returned && writes.contains (str "ABOR\r\n") then some "ABOR-without-cancellation"
+            else none
+  | "C13" =>
+    let conn := st.getD 1 "0" = "1"
+    if op.name = "disc" then
+      (if returned && conn then some "connected-after-disconnect"
+       else if op.args.getD 0 "" != "1" && !writes.isEmpty then some "nongraceful-disconnect-sent-a-command"
+       else if op.args.getD 0 "" != "1" && conn then some "nongraceful-disconnect-left-connection"
+       else if op.args.getD 0 "" = "1" && returned && writes != [str "QUIT\r\n"] then some "graceful-disconnect-did-not-send-QUIT"
+       else if op.args.getD 0 "" = "1" && returned && seen.inStep && retReplies ret != some generated then some "QUIT-reply-not-returned"
+       else none)
+    else if op.name = "connect" then
+      (if returned then
+         (match retReplies ret, generated.head? with
+          | some (r :: _), some g => if r != g then some "first-reply-is-not-the-new-greeting"
+                                       else if !conn && (gen.all fun (c, _) => c != 421) then some "not-connected-after-connect" else none
+          | _, _ => none)
+       else none)
+    else if returned && ((retReplies ret).getD []).any (fun r => r.startsWith "421:") && conn then some "connected-after-421"
+    else none
+  | "C14" =>
+    -- the observers' events, in wire order, are exactly the transcript
+    let obs := seen.observers
+    let expected : List String := Id.run do
+      let mut out : List String := []
+      let mut replies := generated
+      for t in impl do
+        if t = "cc" then
+          let h := (bytesOfHex (op.args.getD 0 "")).getD []
+          out := out ++ obs.map fun o => s!"o{o}:c:{hexOfBytes h}:{op.args.getD 1 "0"}"
+        else if t.startsWith "w:" then
+          let cmd := stripCrLf ((bytesOfHex (t.drop 2).toString).getD [])
+          out := out ++ obs.map fun o => s!"o{o}:q:{hexOfBytes cmd}"
+      -- replies and listings are checked separately below (their position relative to `rl` is fixed by the code)
+      let _ := replies
+      out
+    let gotReq := impl.filter fun t => tokClass t = "o" && ((t.splitOn ":").getD 1 "" = "q" || (t.splitOn ":").getD 1 "" = "c")
+    let gotRep := impl.filter fun t => tokClass t = "o" && (t.splitOn ":").getD 1 "" = "r"
+    let consumed := match retReplies ret with | some rs => rs | none => generated.take (gotRep.length / (max obs.length 1))
+    let wantRep := consumed.flatMap fun r => obs.map fun o => s!"o{o}:r:{r}"
+    if gotReq != expected then some "observer-requests-differ-from-transcript"
+    else if returned && gotRep != wantRep && !noCtl && !(op.name = "disc" && op.args.getD 0 "" != "1") then some "observer-replies-differ-from-transcript"
+    else
+      -- each request is announced immediately before it is written
+      let bad := impl.zipIdx.any fun (t, i) =>
+        t.startsWith "w:" && !obs.isEmpty && !((impl.getD (i - 1) "").startsWith s!"o{obs.getLast?.getD 0}:q:")
+      if bad then some "request-not-announced-before-write" else none
   | "C17" => if fds != 0 then some "data-descriptor-left-open" else none
   | _ => none
+
+def monitorAll (prop : String) : Seen → List OpView → Option String
+  | _, [] => none
+  | s, v :: vs =>
+    match monitorOp prop s v vs.head? with
+    | some c => some s!"{c}"
+    | none => monitorAll prop (seenAfter s v) vs
 
 def clientOp (args : List String) (impl : String) : Option Verdict := do
   let cfg ← args.head?
@@ -111,11 +443,14 @@ def clientOp (args : List String) (impl : String) : Option Verdict := do
       | some (i, a, b) => some s!"op{k}({v.op.name})#{i}: impl {short a} / model {short b}"
       | none => none
     let endTok := (toks.find? (·.startsWith "end:")).getD "end:?"
-    let viol : Option String := (views.findSome? (monitorOp prop)) <|>
+    let seen0 : Seen := { ascii := w0.ttype == .ascii, active := w0.mode == .active, rfc := w0.rfc, v6 := w0.v6 }
+    let viol : Option String := (monitorAll prop seen0 views) <|>
       (if prop = "C17" && endTok != "end:0" then some "descriptor-survives-destruction" else none)
     let names := views.map (·.op.name)
     let tags := (if names.contains "get" then ["get"] else []) ++ (if names.contains "put" then ["put"] else []) ++
       (if names.contains "list" then ["list"] else []) ++ (if views.any (fun v => v.impl.contains "thr:ftp") then ["throws"] else []) ++
+      (if views.any (fun v => cancelledOp v.op) then ["cancel"] else []) ++
+      (if w0.mode == .active then ["active"] else ["passive"]) ++ (if w0.ttype == .ascii then ["ascii"] else []) ++
       (if names.length ≤ 2 then ["short"] else ["history"])
     pure { model := if diffs.isEmpty then impl else "; ".intercalate (diffs.take 3), viol := viol, tags := tags }
 
